@@ -239,6 +239,66 @@ MUTANTS = [
 EXTRA = {}
 
 
+# Behaviour-preserving refactors: the checks must stay SILENT on these (``./vcheck selftest mutants --benign``).
+# (name, property, [(file, old, new), ...], what)
+BENIGN = [
+    (
+        "benign_parent_ancestor_memo_keyed_correctly", "C10",
+        [
+            ("inscripta/biocantor/__init__.py",
+             '    __slots__ = ["parent", "id", "sequence_type", "_strand", "location", "sequence", "_strand_property"]\n',
+             '    __slots__ = ["parent", "id", "sequence_type", "_strand", "location", "sequence", "_strand_property", "_anc_memo"]\n'),
+            (G + "parent/parent.py",
+             "        if include_self and self.sequence_type == sequence_type:\n            return True\n        if self.parent:\n            return self.parent.has_ancestor_of_type(sequence_type, include_self=True)\n        return False\n",
+             "        try:\n            memo = self._anc_memo\n        except AttributeError:\n            memo = self._anc_memo = {}\n        key = (sequence_type, bool(include_self))\n        if key not in memo:\n            if include_self and self.sequence_type == sequence_type:\n                memo[key] = True\n            elif self.parent:\n                memo[key] = self.parent.has_ancestor_of_type(sequence_type, include_self=True)\n            else:\n                memo[key] = False\n        return memo[key]\n"),
+        ],
+        "a CORRECT per-instance memo of has_ancestor_of_type in a new private slot",
+    ),
+    (
+        "benign_merge_qualifiers_deepcopy", "C10",
+        [(G + "gene/interval.py",
+          "        merged = {key: set(vals) for key, vals in self.qualifiers.items()}\n",
+          "        import copy as _copy\n\n        merged = _copy.deepcopy(self.qualifiers)\n")],
+        "_merge_qualifiers copies with copy.deepcopy",
+    ),
+    (
+        "benign_cds_num_codons_private_memo", "C10",
+        [(G + "gene/cds.py",
+          "        return len(self.chromosome_codon_locations)\n",
+          "        if getattr(self, \"_num_codons_memo\", None) is None:\n            self._num_codons_memo = len(self.chromosome_codon_locations)\n        return self._num_codons_memo\n")],
+        "a correct private memo attribute on CDSInterval",
+    ),
+    (
+        "benign_gff3_writer_batches_lines", "C11",
+        [(G + "io/gff3/writer.py",
+          "    for collection in collections:\n        for item in collection.to_gff(\n            chromosome_relative_coordinates=chromosome_relative_coordinates,\n            raise_on_reserved_attributes=raise_on_reserved_attributes,\n        ):\n            print(item, file=gff3_handle)\n",
+          "    for collection in collections:\n        rows = [\n            str(item)\n            for item in collection.to_gff(\n                chromosome_relative_coordinates=chromosome_relative_coordinates,\n                raise_on_reserved_attributes=raise_on_reserved_attributes,\n            )\n        ]\n        if rows:\n            gff3_handle.write(\"\\n\".join(rows) + \"\\n\")\n")],
+        "GFF3 writer renders a collection's rows first and writes them with one write() (same bytes, other write pattern)",
+    ),
+    (
+        "benign_tbl_codon_start_equivalent", "C17",
+        [(G + "io/ncbi/tbl_writer.py",
+          "        codon_start = next(transcript.cds._frame_iter()).value + 1\n",
+          "        frames_5p_to_3p = list(transcript.cds._frame_iter())\n        codon_start = int(frames_5p_to_3p[0].value) + 1\n")],
+        "codon_start computed by an equivalent expression",
+    ),
+    (
+        "benign_digest_sorted_generator", "C08",
+        [(G + "util/hashing.py",
+          "    return sorted(str(x) for x in set_of_hashables)\n",
+          "    as_str = [str(x) for x in set_of_hashables]\n    as_str.sort()\n    return as_str\n")],
+        "_order_set sorts a list in place instead of sorted(generator)",
+    ),
+    (
+        "benign_genbank_writer_qualifier_order_sorted", "C12",
+        [(G + "io/genbank/writer.py",
+          "    qualifiers = {key: list(vals) for key, vals in gene_or_feature.export_qualifiers().items()}\n",
+          "    qualifiers = {key: sorted(vals) for key, vals in gene_or_feature.export_qualifiers().items()}\n")],
+        "GenBank gene qualifiers written in sorted instead of set order (text changes, content does not)",
+    ),
+]
+
+
 def scratch_copy():
     base = tempfile.mkdtemp(prefix="bcsim-mut-", dir="/dev/shm")
     shutil.copytree("/repo/inscripta", os.path.join(base, "inscripta"))
@@ -270,6 +330,7 @@ def main(argv):
     runs = None
     keep = False
     seeded = False
+    benign = False
     props = []
     it = iter(argv)
     for a in it:
@@ -281,8 +342,29 @@ def main(argv):
             keep = True
         elif a == "--seeded":
             seeded = True
+        elif a == "--benign":
+            benign = True
         else:
             props.append(a)
+    if benign:
+        failed = []
+        for name, prop, edits, what in BENIGN:
+            if (props and prop not in props) or (only and only not in name):
+                continue
+            base = scratch_copy()
+            try:
+                for rel, old_, new_ in edits:
+                    apply_edit(base, rel, old_, new_)
+                rc, out, dt = run_check(base, prop, runs=runs)
+                quiet = rc == 0 and not any(l.startswith(("VIOLATION", "HARNESS-ERROR")) for l in out.splitlines())
+                print(f"[benign] {'QUIET' if quiet else 'ALARM':6s} {prop} {name} ({dt:.0f}s) {what}")
+                if not quiet:
+                    failed.append(name)
+                    print("\n".join("       | " + l for l in out.splitlines()[-8:]))
+            finally:
+                shutil.rmtree(base, ignore_errors=True)
+        print(f"[benign] false alarms: {failed}")
+        return 1 if failed else 0
     todo = []
     if not seeded:
         for m in MUTANTS:
